@@ -3,6 +3,8 @@
 usage: c09_impl.py p1 <tmpdir>    < cases {"id", "hex", "frames": [[off, len], ...]}  -> {"id", "p1": [[frame hex, seconds|null], ...]}
        c09_impl.py open <tmpdir>  < cases {"id", "data": hex, "p1i": hex|null, "ignore": bool, "threads": int|null}
             -> {"id", "first": R, "second": R}
+       c09_impl.py hist <tmpdir>  < cases {"id", "name", "steps": [...]}   -> {"id", "opens": [R + {"before_p1i"}, ...]}
+            (a whole multi-step history in ONE interpreter: rewrite data / index file, open [with max_bytes], ...)
        where R = {"exc": name, "msg": ...} | {"msgs": [[off, len], ...], "bytes_ok": bool, "p1i": hex|null}
 
 For an `open` case the data file <dir>/<name> (name given by the case: *.p1log, *.bin, *.raw, no extension ...) and
@@ -16,10 +18,12 @@ sys.path.insert(0, os.path.dirname(os.path.abspath(__file__)))
 from c18_impl import p1_of, rd  # noqa: E402
 
 
-def read_log(path, data, ignore, threads):
+def read_log(path, data, ignore, threads, max_bytes=None):
     from fusion_engine_client.parsers import MixedLogReader
     try:
         kw = {} if threads is None else {'num_threads': threads}
+        if max_bytes is not None:
+            kw['max_bytes'] = max_bytes
         reader = MixedLogReader(path, ignore_index=ignore, return_header=False, return_payload=True, return_bytes=True,
                                 return_offset=True, **kw)
         try:
@@ -52,6 +56,37 @@ def open_case(c, tmp):
     return res
 
 
+def hist_case(c, tmp):
+    """a whole history inside this interpreter and one directory: steps {"op": "data", "hex"} (rewrite the data file),
+    {"op": "p1i", "hex"|null} (write / remove the index file), {"op": "open", "ignore", "threads", "max_bytes"|null}."""
+    d = os.path.join(tmp, 'h' + c['id'])
+    os.makedirs(d)
+    path = os.path.join(d, c.get('name', 'log.p1log'))
+    ipath = os.path.splitext(path)[0] + '.p1i'
+    data = b''
+    out = []
+    for st in c['steps']:
+        if st['op'] == 'data':
+            data = bytes.fromhex(st['hex'])
+            with open(path, 'wb') as f:
+                f.write(data)
+        elif st['op'] == 'p1i':
+            if st['hex'] is None:
+                if os.path.exists(ipath):
+                    os.remove(ipath)
+            else:
+                with open(ipath, 'wb') as f:
+                    f.write(bytes.fromhex(st['hex']))
+        else:
+            before = rd(ipath)
+            r = read_log(path, data, st.get('ignore', False), st.get('threads'), st.get('max_bytes'))
+            r['before_p1i'] = before
+            r['data_unchanged'] = rd(path) == data.hex()
+            out.append(r)
+    shutil.rmtree(d, ignore_errors=True)
+    return {'id': c['id'], 'opens': out}
+
+
 def p1_case(c, tmp):
     data = bytes.fromhex(c['hex'])
     return {'id': c['id'], 'p1': [[data[o:o + n].hex(), p1_of(data[o:o + n])] for o, n in c['frames']]}
@@ -60,7 +95,7 @@ def p1_case(c, tmp):
 def main():
     logging.disable(logging.CRITICAL)
     mode, tmp = sys.argv[1], sys.argv[2]
-    fn = open_case if mode == 'open' else p1_case
+    fn = {'open': open_case, 'hist': hist_case, 'p1': p1_case}[mode]
     for line in sys.stdin:
         line = line.strip()
         if not line:
